@@ -399,6 +399,7 @@ fn gen_condgen_spends(s: &mut Src<'_>, blobs: &[Blob]) -> Vec<RawSpend> {
         strict_friendly: true,
         shape_mutations: false,
         careful_rate: 256,
+        eval_puzzles: false,
     };
     let mut sub = s.sub(160);
     let mut b = condgen::gen_bundle(&mut sub, &cfg);
